@@ -28,10 +28,10 @@ Inductive outcome := OValue | ODone.
 
 (* who calls try_complete(k) *)
 Inductive ctx :=
-| CLock     (* start(): after mutex_.try_lock() succeeded            [v2/async_mutex.hpp:165-170] *)
-| CResume   (* resume_: after process_queue popped k                  [v2/async_mutex.hpp:103-112] *)
-| CEarly    (* stop() with started_ = false (StopsEarly)             [v2/async_mutex.hpp:190-197] *)
-| CStop.    (* stop() after queue_.try_remove(this) succeeded        [v2/async_mutex.hpp:198-203] *)
+| CLock     (* start(): after mutex_.try_lock() succeeded            [v2/async_mutex.hpp:157-162] *)
+| CResume   (* resume_: after process_queue popped k                  [v2/async_mutex.hpp:95-105] *)
+| CEarly    (* stop() with started_ = false (StopsEarly)             [v2/async_mutex.hpp:180-187] *)
+| CStop.    (* stop() after queue_.try_remove(this) succeeded        [v2/async_mutex.hpp:188-194] *)
 
 Inductive cbst :=
 | CbNone     (* stop callback not constructed yet *)
@@ -41,11 +41,11 @@ Inductive cbst :=
 | CbGone.    (* removed from the list by remove_callback *)
 
 Inductive act :=
-(* cancellable type::start on the locker's thread                   [cancellable.hpp:211-227] *)
-| AReg (i : nat)        (* try_add_callback: try_lock_unless_stop_requested(false)  [stop_token.cpp:110-125] *)
+(* cancellable type::start on the locker's thread                   [cancellable.hpp:198-214] *)
+| AReg (i : nat)        (* try_add_callback: try_lock_unless_stop_requested(false)  [inplace_stop_token.cpp:124-140, 98-122] *)
 | ARegRel (i : nat)     (* unlock(0) *)
 | AEarly (i : nat)      (* StopsEarly: state_.load(acquire) & stopped *)
-(* _op::type::start                                                 [v2/async_mutex.hpp:162-185] *)
+(* _op::type::start                                                 [v2/async_mutex.hpp:154-176] *)
 | ATryLock (i : nat)    (* locked_.exchange(true, acquire) *)
 | APush (i : nat)       (* queue_.push_back: lock the tail link, sentinel_.self := &item.rest *)
 | APushPub (i : nat)    (* queue_.push_back: unlock the predecessor link with the item *)
@@ -56,22 +56,22 @@ Inductive act :=
 | AUnlStore             (* locked_.store(false, release) *)
 | AEmpty                (* queue_.empty() *)
 | AReXchg               (* locked_.exchange(true, acq_rel) *)
-(* try_complete(k) and the completion                               [cancellable.hpp:167-203] *)
+(* try_complete(k) and the completion                               [cancellable.hpp:138-178] *)
 | ATryComplete (k : nat) (c : ctx)   (* state_.fetch_or(completed, acq_rel) *)
 | ASyncStore (k : nat) (c : ctx)     (* sync_complete_->store(true, release) *)
-| ADeregAcq (k : nat) (c : ctx)      (* cleanup_: ~inplace_stop_callback: remove_callback: lock() [stop_token.cpp:127-155] *)
+| ADeregAcq (k : nat) (c : ctx)      (* cleanup_: ~inplace_stop_callback: remove_callback: lock() [inplace_stop_token.cpp:142-172] *)
 | ADeregRel (k : nat) (c : ctx) (wait : bool)   (* unlock(oldState) *)
 | ADeregWait (k : nat) (c : ctx)     (* spin until callbackCompleted_.load(acquire) *)
-| AHop (k : nat) (c : ctx)           (* inline scheduler: get_stop_token(receiver).stop_requested() [inline_scheduler.hpp:56-61] *)
-(* stop_type::start after nested start returned                     [cancellable.hpp:98-121] *)
+| AHop (k : nat) (c : ctx)           (* inline scheduler: get_stop_token(receiver).stop_requested() [inline_scheduler.hpp:52-63] *)
+(* stop_type::start after nested start returned                     [cancellable.hpp:80-108] *)
 | ASyncLoad (i : nat)   (* sync_complete.load(acquire) *)
 | AStartedOr (i : nat)  (* state_.fetch_or(started, acq_rel) *)
 | ASyncSpin (i : nat)   (* while (!sync_complete.load(acquire)) *)
-(* _op::type::stop with started_                                    [v2/async_mutex.hpp:198-204] *)
+(* _op::type::stop with started_                                    [v2/async_mutex.hpp:188-195] *)
 | ATryRemove (i : nat)  (* queue_.try_remove(this) *)
-(* stop_callback::operator()                                        [cancellable.hpp:137-143] *)
+(* stop_callback::operator()                                        [cancellable.hpp:122-131] *)
 | ACbOr (i : nat)       (* state_.fetch_or(stopped, acq_rel) *)
-(* inplace_stop_source::request_stop on the requester's thread      [stop_token.cpp:42-81] *)
+(* inplace_stop_source::request_stop on the requester's thread      [inplace_stop_token.cpp:39-76] *)
 | SAcq (i : nat)        (* try_lock_unless_stop_requested(true) *)
 | SRel (i : nat) (popped : bool)   (* state_.store(stop_requested_flag, release) *)
 | SCbDone (i : nat)     (* callbackCompleted_.store(true, release) *)
@@ -261,7 +261,7 @@ Definition ret_to (s : st) (k : cont) : act * cont :=
 Definition ret (s : st) (t : nat) (k : cont) : st :=
   set_thr s t (fst (ret_to s k)) (snd (ret_to s k)).
 
-(* forward_set_value on the receiver of k                          [v2/async_mutex.hpp:118-124] *)
+(* forward_set_value on the receiver of k                          [v2/async_mutex.hpp:111-117] *)
 Definition deliver (s : st) (t : nat) (kc : cont) (k : nat) (c : ctx) (stopseen : bool) : st * list ev :=
   let o := if stopseen then ODone else if o_cancelled (getop s k) then ODone else OValue in
   (ret (upd_op s k (w_res o)) t kc, [EComplete k o c]).
